@@ -2012,3 +2012,59 @@ def bv_rmtree_guard(eng, st, args):
 for _c in CONTRACTS:
     if _c.target == M + 'build_versioned':
         _c.guards['rmtree'] = bv_rmtree_guard
+
+
+# ---------------------------------------------------------------------------------------------------
+# the two public wrappers: they forward what they were given, with the documented defaults
+def build_forward_guard(eng, st, cargs):
+    """build(c, n, f, *a, **k) is build_versioned(c, n, {}, f, *a, **k)"""
+    a = eng.cur_args
+    conds = [eng.intr.to_pyv(cargs['cache_filename']) == eng.intr.to_pyv(a['cache_filename']),
+             eng.intr.to_pyv(cargs['build_name']) == eng.intr.to_pyv(a['build_name']),
+             eng.intr.to_pyv(cargs['versions']) == PyV.PDict(KVs.knil),
+             z3.BoolVal(cargs['func'] is a['func']),
+             eng.intr.to_pyv(cargs['args']) == eng.intr.to_pyv(a['args']),
+             eng.intr.to_pyv(cargs['kwargs']) == eng.intr.to_pyv(a['kwargs'])]
+    return [('forwards-its-arguments-with-empty-versions', And(conds),
+             ['C06', 'C01', 'C15', 'C02', 'C16'])]
+
+
+_bw = Contract(
+    M + 'build', props=['C06', 'C01', 'C15', 'C02', 'C16'],
+    params={'cache_filename': PYV, 'build_name': PYV, 'func': callback(), 'args': VARARGS,
+            'kwargs': KWARGS},
+    returns=PYV,
+    requires=lambda c: [('wf1', J.wf(c.cache_filename)), ('wf2', J.wf(c.build_name))],
+    raises=[ExcSpec('BaseException', exact=False)],
+    modifies=lambda c: list(SH.keys()) + BUILD_GHOSTS + ['g:mkdtemp_at', 'g:wopen_attempts'],
+    notes='public wrapper of build_versioned')
+_bw.call_guards = {'file_builder.FileBuilder.build_versioned': build_forward_guard}
+CONTRACTS.append(_bw)
+
+
+def build_file_forward_guard(eng, st, cargs):
+    """build_file(f, n, fn, *a, **k) is build_file_with_comparison(f, METADATA, n, fn, *a, **k)"""
+    a = eng.cur_args
+    fc = cargs['file_comparison']
+    conds = [eng.intr.to_pyv(cargs['filename']) == eng.intr.to_pyv(a['filename']),
+             eng.hread(st, 'FileComparison.name', fc.t) == str_lit('METADATA'),
+             eng.intr.to_pyv(cargs['func_name']) == eng.intr.to_pyv(a['func_name']),
+             z3.BoolVal(cargs['func'] is a['func']),
+             eng.intr.to_pyv(cargs['args']) == eng.intr.to_pyv(a['args']),
+             eng.intr.to_pyv(cargs['kwargs']) == eng.intr.to_pyv(a['kwargs']),
+             cargs['self'].t == a['self'].t]
+    return [('forwards-its-arguments-with-METADATA', And(conds), ['C13', 'C10', 'C01', 'C08'])]
+
+
+_bf = Contract(
+    M + 'build_file', props=['C13', 'C10', 'C01', 'C08'],
+    params={'self': FB, 'filename': PYV, 'func_name': PYV, 'func': callback(), 'args': VARARGS,
+            'kwargs': KWARGS},
+    returns=PYV,
+    requires=lambda c: PUBLIC_RUN_REQ(c) + [('wf-name', J.wf(c.func_name)),
+                                            ('wf-filename', J.wf(c.filename))],
+    raises=[ExcSpec('BaseException', exact=False)],
+    modifies=builder_mods,
+    notes='public wrapper of build_file_with_comparison')
+_bf.call_guards = {'file_builder.FileBuilder.build_file_with_comparison': build_file_forward_guard}
+CONTRACTS.append(_bf)
